@@ -18,6 +18,7 @@ RULE = (
     "from the running interpreter's ast module so that every ast.expr subclass is classified) embedded in EVERY allowed context (each operand slot of each operator/comparison, each argument slot of each "
     "whitelisted function, numerator and denominator of a division) nested to depth 2 (quick) / 3 (thorough): parse_function must raise and leave the scratch directory empty; "
     "(b) all arithmetic expressions up to depth 2/3 over the whitelisted operators and functions are accepted, evaluate like ordinary real arithmetic (0/x = 0/0 = 0) on scalars and arrays, and report exactly their free names. "
+    "(c) plot specifications (evaluate_plot_string): lists / dicts of strings are evaluated as literals, every forbidden construct and every non-string element inside every list / dict wrapper is rejected. "
     "distinct_nontrivial counts distinct expression strings with nesting depth >= 1."
 )
 ASSUMPTIONS = [
@@ -103,6 +104,7 @@ def cases(tier):
     for d in range(0, depth + 1):
         yield dict(kind="semantics", depth=d, tier=tier)
     yield dict(kind="selectors")
+    yield dict(kind="plot_strings")
 
 
 def parse(s):
@@ -326,5 +328,48 @@ def run_selectors(case):
     return dict(states=0, transitions=0, nontrivial=True, violations=vs, digest="selectors")
 
 
+def run_plot_strings(case):
+    """plot specifications in the framework are evaluated as literals of lists / dicts of strings only"""
+    from atomica.utils import evaluate_plot_string
+
+    vs = []
+    n = 0
+    tmp = tempfile.mkdtemp(prefix="c19p_", dir="/dev/shm" if os.path.isdir("/dev/shm") else None)
+    cwd = os.getcwd()
+    os.chdir(tmp)
+    try:
+        good = {"{'New cases':['a:flow','b:flow']}": {"New cases": ["a:flow", "b:flow"]}, "['a','b']": ["a", "b"], "[{'x':['a']},'b']": [{"x": ["a"]}, "b"], "alive": "alive", "a:b": "a:b"}
+        for src, exp in good.items():
+            n += 1
+            try:
+                if evaluate_plot_string(src) != exp:
+                    vs.append(V("plot-string-value", f"evaluate_plot_string({src!r}) is not the literal {exp!r}", None))
+            except Exception as e:
+                vs.append(V("plot-string-rejected", f"valid plot specification {src!r} rejected: {type(e).__name__}: {e}", None))
+        wrappers = ["[{}]", "{{'k':[{}]}}", "[['a'],{}]", "{{'k':{}}}", "[{{'k':[{}]}}]"]
+        inner = [src for _, src in FORBIDDEN] + ["open('verif_leak4','w')", "'a'.upper()", "1+1", "'a'*3", "x", "-1", "('a','b')", "f'{1}'", "[y for y in 'ab']"]
+        for w_ in wrappers:
+            for i_ in inner:
+                s_ = w_.format(i_)
+                n += 1
+                try:
+                    evaluate_plot_string(s_)
+                except Exception:
+                    continue
+                finally:
+                    left = os.listdir(tmp)
+                    if left:
+                        vs.append(V("plot-string-side-effect", f"evaluating the plot specification {s_!r} created {left}", None))
+                vs.append(V("plot-string-accepted-non-literal", f"evaluate_plot_string accepted {s_!r}, which is not a list / dict of strings", dict(expr=s_)))
+                if len(vs) > 3:
+                    break
+            if len(vs) > 3:
+                break
+    finally:
+        os.chdir(cwd)
+        shutil.rmtree(tmp, ignore_errors=True)
+    return dict(states=0, transitions=0, nontrivial=True, violations=vs[:3], counters=dict(plot_strings=n), digest="plot_strings")
+
+
 def run_case(case):
-    return dict(classify=run_classify, reject=run_reject, semantics=run_semantics, selectors=run_selectors)[case["kind"]](case)
+    return dict(classify=run_classify, reject=run_reject, semantics=run_semantics, selectors=run_selectors, plot_strings=run_plot_strings)[case["kind"]](case)
